@@ -26,13 +26,14 @@ class Obs(hooks.Observer):
     def __init__(self, res, cfg, err):
         super().__init__(cfg["steps"], err)
         self.res = res
+        self.cfg = cfg
         self.snap = None
         self.multi = 0
         self.trace = []
 
     def before_refine(self, c):
         super().before_refine(c)
-        self.snap = dimwise.snapshot_selection(c)
+        self.snap = dimwise.snapshot_selection(c, self.cfg["margin"])
 
     def on_rotation(self, c, d, before, after):
         self.res.count("rotation_observed")
